@@ -75,6 +75,8 @@ type Tbl struct {
 	LowerKW bool
 	// BareExpr: expression index parts are written without their own parentheses (foreign DDL only).
 	BareExpr bool
+	// BareNames: identifiers are written without quotes, the way hand-written DDL usually is (foreign DDL only).
+	BareNames bool
 }
 
 // Sch is a schema.
@@ -158,6 +160,11 @@ func (t *Tbl) DDL() []string {
 			return strings.ToLower(s)
 		}
 		return s
+	}
+	q, qs := q, qs
+	if t.BareNames {
+		q = func(s string) string { return s }
+		qs = func(ss []string) string { return strings.Join(ss, ", ") }
 	}
 	var defs []string
 	for _, c := range t.Cols {
